@@ -459,7 +459,9 @@ def div(a, b):
 def floordiv(a, b):
     a, b = norm(a), norm(b)
     if is_conc(a) and is_conc(b):
-        return _num(a) // _num(b)
+        q = _num(a) // _num(b)
+        # python: the floor quotient of floats is a float (Fraction // Fraction is an int)
+        return Fraction(q) if isinstance(a, Fraction) or isinstance(b, Fraction) else q
     ta, tb = znum(a), znum(b)
     if z3.is_int(ta) and z3.is_int(tb):
         if is_conc(b) and _num(b) > 0:
